@@ -33,8 +33,9 @@ BOTH = {"fill": ("blue", "red"), "opacity": ("1", "0.5"), "fill-opacity": ("0", 
 
 TEMPLATES = {
     "T1": ["root", "g1", "g2", "A", "B"],
-    "T2": ["root", "g1", "use", "A", "B"],
+    "T2": ["root", "g1", "use", "t", "A", "B"],  # t = the referenced group
     "T3": ["root", "g1", "A", "B", "C"],
+    "T4": ["root", "use", "A", "B"],  # the referenced element is the shape A itself: <use> and A may set the same property
 }
 
 
@@ -79,8 +80,11 @@ def document(tpl, settings):
         body = f'<g{a("g1")}><g{a("g2")}>{A}{B}</g></g>'
         defs = ""
     elif tpl == "T2":
-        defs = f'<g id="t">{A}{B}</g>'
+        defs = f'<g id="t"{a("t")}>{A}{B}</g>'
         body = f'<g{a("g1")}><use xlink:href="#t" x="4" y="3"{a("use")}/></g>'
+    elif tpl == "T4":
+        defs = A.replace("<path ", '<path id="t" ', 1)
+        body = f'<use xlink:href="#t" x="4" y="3"{a("use")}/>{B}'
     else:
         cfill = "" if any(s[0] == "C" and s[1] == "fill" and s[2] in ("attr", "both") for s in settings) else ' fill="teal"'
         C = f'<rect x="40" y="10" width="45" height="35"{cfill}{a("C")}/>'
@@ -180,7 +184,7 @@ def cases(tier, seed):
 
 def run(run):
     run.rule = (
-        "E2 deviation-bounded + R3: templates T1 root>g1>g2>{A (self-overlapping path), B (overlapping circle)}, T2 root>g1>use>target{A,B}, T3 root>{g1{A,C},B}; "
+        "E2 deviation-bounded + R3: templates T1 root>g1>g2>{A (self-overlapping path), B (overlapping circle)}, T2 root>g1>use>target group t{A,B}, T3 root>{g1{A,C},B}, T4 root>{use>A (the shape itself), B}; "
         "setting = (level, property in {fill, fill-opacity, opacity, display, fill-rule, stroke}, carrier in {attribute, style, both with different values}, value incl. explicit defaults "
         "and zero opacities); all documents with 0, 1, 2 settings (quick; reduced alphabets for pairs on T2/T3), 3 settings on T1 (thorough). Excluded by scope: visible stroke together with an "
         "opacity 0.5 setting. Oracle: canonical stacks and composites equal outside the band; vanished content absent (no display:none / fill:none / opacity 0 / empty path in the output). "
